@@ -16,6 +16,23 @@ CLAIMS = {
         design="6 C20"),
 }
 
+REASM_NOTE = ("Trusted: Coq kernel + VM; the hand-written model Model/Reassembler.v (tied to reassembler.go by the correspondence run: every generated history is run on the real Reassembler and the model must produce the same callbacks, "
+              "arguments and return values); clock readings are bracketed by harness stamps, undecided cases are discarded and counted; sort.Sort is modelled as insertion sort (n<=12) / any sorted permutation. No axioms.")
+CLAIMS.update({
+    "C01": dict(text="Proof: Theorem C01_exactly_once_grouped (Properties/C01.v) holds for every call history, every maxInFlight, timeout, clock reading and sequence number of the model (induction over the history with the invariant 'seqs and events have the same keys; each event holds exactly the undelivered messages of its sequence in push order'); "
+                     "the same boolean checker is evaluated on what the implementation did on every generated history.",
+                note=REASM_NOTE, technique="Coq invariant proof over all histories + model/implementation correspondence", design="6 C01"),
+    "C02": dict(text="Proof: Theorem C02_order / C02_order_obs: on every history whose buffered sequences fit one 2^24 window (any base, straddling 2^32) each delivered event is the lowest buffered one under the code's roll-over comparator; lemma less_in_window shows the comparator is the order by distance from the window base. The checker is also evaluated on the implementation's trace.",
+                note=REASM_NOTE, technique="Coq invariant proof (sortedness inside a window) + correspondence", design="6 C02"),
+    "C03": dict(text="Proof: Theorem C03_lost_exact: for every history the EventsLost reports equal, call by call, the sequence numbers skipped between in-order deliveries (serial-number arithmetic), one positive report per call, nothing for late/duplicate events. Proved of the repaired arithmetic (fix commit 38ca415); the checker is also evaluated on the implementation's trace.",
+                note=REASM_NOTE, technique="Coq proof over all histories + correspondence", design="6 C03"),
+    "C10": dict(text="Proof (bound): Theorem C10_bound_any_history: after every Push at most maxInFlight distinct sequences are undelivered, for every history. Partial for the cause / oldest-not-complete clauses: these are decided on every implementation trace by the observation-level checker (walk in Check/ChkReasm.v) and by model agreement; their theorem over all histories is not yet proved.",
+                note=REASM_NOTE + " PARTIAL: eviction-cause and oldest-not-complete clauses are checked on traces, not yet proved for all histories.", technique="Coq proof (bound) + trace checker + correspondence", design="6 C10"),
+    "C11": dict(text="Proof (partial): Theorem C11_all_schedules_partial: in the small-step concurrent model (any threads, programs, re-entrant callbacks) every schedule delivers each put message at most once and at most one Close wins. The tie to the code is the verif yield hook: the harness forces schedules step by step and the model run on the same schedule must give the same callbacks and returns; unscheduled stress runs, close storms and a race-detector run support the runtime part.",
+                note=REASM_NOTE + " PARTIAL: data-race freedom, deadlock freedom and the behaviour of sync.Mutex/atomic are runtime facts (forced schedules with a 2 s deadlock deadline, stress runs and go -race support them); the exactly-once-after-all-returned clause is checked on traces, not yet proved.",
+                technique="Coq proof over all schedules of a small-step model + forced-schedule correspondence via build-tag hook + race detector", design="6 C11"),
+})
+
 NOT_YET = {}
 
 def main():
